@@ -42,6 +42,33 @@ class Tok:
         return f"Tok({self.type})"
 
 
+class Obj:
+    """a model object: a class name and a dictionary of fields (attribute loads of unknown fields are not guessed)"""
+
+    def __init__(self, cls: str, **fields: Any):
+        self.cls = cls
+        self.fields: Dict[str, Any] = dict(fields)
+
+    def __repr__(self) -> str:
+        return f"<{self.cls} {self.fields.get('name', '')!r}>"
+
+
+class PyExc(Exception):
+    """an exception the interpreted code raises by itself (KeyError of a subscript, ...)"""
+
+    def __init__(self, name: str):
+        super().__init__(name)
+        self.name = name
+
+
+_EXC_PARENTS = {"KeyError": ("KeyError", "LookupError", "Exception", "BaseException"),
+                "IndexError": ("IndexError", "LookupError", "Exception", "BaseException"),
+                "AttributeError": ("AttributeError", "Exception", "BaseException")}
+
+
+_STR_METHODS = ("join", "startswith", "endswith", "strip", "lstrip", "rstrip", "lower", "upper", "split", "find", "replace")
+
+
 class LocalFunction:
     def __init__(self, node: ast.FunctionDef, closure: Dict[str, Any]):
         self.node = node
@@ -79,6 +106,10 @@ class Run:
             base = self.ev(e.value)
             if isinstance(base, Tok) and e.attr in ("type", "value"):
                 return getattr(base, e.attr)
+            if isinstance(base, Obj):
+                if e.attr in base.fields:
+                    return base.fields[e.attr]
+                raise Unsupported(f"field {e.attr} of a {base.cls} model object")
             if isinstance(base, dict) and e.attr in base:
                 return base[e.attr]
             if isinstance(base, Opaque):
@@ -131,6 +162,21 @@ class Run:
             if isinstance(e.op, ast.Sub):
                 return l - r
             raise Unsupported(norm(e))
+        if isinstance(e, ast.Subscript):
+            base = self.ev(e.value)
+            if isinstance(base, dict) and not isinstance(e.slice, ast.Slice):
+                k = self.ev(e.slice)
+                if k not in base:
+                    raise PyExc("KeyError")
+                return base[k]
+            if isinstance(base, (list, tuple)) and not isinstance(e.slice, ast.Slice):
+                k = self.ev(e.slice)
+                if not isinstance(k, int):
+                    raise Unsupported("index")
+                if not -len(base) <= k < len(base):
+                    raise PyExc("IndexError")
+                return base[k]
+            raise Unsupported(f"subscript {norm(e)[:40]}")
         if isinstance(e, ast.List):
             return [self.ev(x) for x in e.elts]
         if isinstance(e, (ast.Tuple, ast.Set)):
@@ -155,12 +201,35 @@ class Run:
                 base = self.ev(e.func.value)
                 if isinstance(base, dict):
                     return list(getattr(base, e.func.attr)())
+            if isinstance(e.func, ast.Attribute) and e.func.attr in ("get", "setdefault", "pop") and 1 <= len(e.args) <= 2 and not e.keywords:
+                base = self.ev(e.func.value)
+                if isinstance(base, dict):
+                    k = self.ev(e.args[0])
+                    dflt = self.ev(e.args[1]) if len(e.args) == 2 else None
+                    if e.func.attr == "get":
+                        return base.get(k, dflt)
+                    if e.func.attr == "setdefault":
+                        return base.setdefault(k, dflt)
+                    if k in base:
+                        return base.pop(k)
+                    if len(e.args) == 2:
+                        return dflt
+                    raise PyExc("KeyError")
             if isinstance(e.func, ast.Attribute) and e.func.attr in ("append", "extend") and len(e.args) == 1:
                 base = self.ev(e.func.value)
                 if isinstance(base, list):
                     v = self.ev(e.args[0])
                     base.append(v) if e.func.attr == "append" else base.extend(v)
                     return None
+            if isinstance(e.func, ast.Attribute) and e.func.attr in _STR_METHODS and not e.keywords and not any(isinstance(x, ast.Call) for x in ast.walk(e.func.value)):
+                try:
+                    base = self.ev(e.func.value)
+                except Unsupported:
+                    base = None
+                if isinstance(base, str):
+                    args = [self.ev(a) for a in e.args]
+                    if all(isinstance(a, (str, int, tuple)) or (isinstance(a, list) and all(isinstance(x, str) for x in a)) for a in args):
+                        return getattr(base, e.func.attr)(*args)
             if isinstance(e.func, ast.Name) and isinstance(self.env.get(e.func.id), LocalFunction):
                 lf: LocalFunction = self.env[e.func.id]
                 if self.depth > 4:
@@ -195,6 +264,19 @@ class Run:
                 raise Unsupported("unpack")
             for x, y in zip(t.elts, vs):
                 self.assign(x, y)
+        elif isinstance(t, ast.Attribute):
+            base = self.ev(t.value)
+            if not isinstance(base, Obj):
+                raise Unsupported(f"store {norm(t)[:40]}")
+            base.fields[t.attr] = v
+        elif isinstance(t, ast.Subscript) and not isinstance(t.slice, ast.Slice):
+            base = self.ev(t.value)
+            if not isinstance(base, (dict, list)):
+                raise Unsupported(f"store {norm(t)[:40]}")
+            k = self.ev(t.slice)
+            if isinstance(base, list) and not (isinstance(k, int) and -len(base) <= k < len(base)):
+                raise PyExc("IndexError")
+            base[k] = v
         else:
             raise Unsupported(f"store {norm(t)[:40]}")
 
@@ -214,66 +296,94 @@ class Run:
             if steps > self.max_steps:
                 raise Unsupported("step budget exceeded (does the loop terminate on this input?)")
             self.trace.append(n.id)
+            if n is self.cfg.raise_exit:
+                self.raised = self.raised or "raise"
+                return self
             st = n.stmt
             label: Optional[str] = None
-            if n.kind == "test":
-                if n.cond is not None:
-                    label = "T" if self.ev(n.cond) else "F"
-                elif isinstance(st, ast.For):
-                    inside = getattr(self, "_inside", {}).get(n.id)
-                    if inside is None:
-                        inside = {id(x) for b in st.body for x in ast.walk(b)}
-                        self.__dict__.setdefault("_inside", {})[n.id] = inside
-                    came_from_body = prev is not None and prev.stmt is not None and id(prev.stmt) in inside
-                    if n.id not in self.iters or not came_from_body:
-                        self.iters[n.id] = iter(list(self.ev(st.iter)))
-                    try:
-                        item = next(self.iters[n.id])
-                        self.assign(st.target, item)
-                        label = "T"
-                    except StopIteration:
-                        self.iters.pop(n.id, None)
-                        label = "F"
-                else:
-                    raise Unsupported("loop form not interpreted")
-            elif n.kind == "stmt" and st is not None:
-                if isinstance(st, ast.Assign):
-                    v = self.ev(st.value)
-                    for t in st.targets:
-                        self.assign(t, v)
-                elif isinstance(st, ast.AnnAssign):
-                    if st.value is not None:
-                        self.assign(st.target, self.ev(st.value))
-                elif isinstance(st, ast.AugAssign):
-                    cur = self.ev(ast.Name(id=st.target.id, ctx=ast.Load())) if isinstance(st.target, ast.Name) else None
-                    if cur is None and not isinstance(st.target, ast.Name):
-                        raise Unsupported("augmented store")
-                    d = self.ev(st.value)
-                    if isinstance(st.op, ast.Add):
-                        self.env[st.target.id] = cur + d
-                    elif isinstance(st.op, ast.Sub):
-                        self.env[st.target.id] = cur - d
+            try:
+                if n.kind == "test":
+                    if n.cond is not None:
+                        label = "T" if self.ev(n.cond) else "F"
+                    elif isinstance(st, ast.For):
+                        inside = getattr(self, "_inside", {}).get(n.id)
+                        if inside is None:
+                            inside = {id(x) for b in st.body for x in ast.walk(b)}
+                            self.__dict__.setdefault("_inside", {})[n.id] = inside
+                        came_from_body = prev is not None and prev.stmt is not None and id(prev.stmt) in inside
+                        if n.id not in self.iters or not came_from_body:
+                            self.iters[n.id] = iter(list(self.ev(st.iter)))
+                        try:
+                            item = next(self.iters[n.id])
+                            self.assign(st.target, item)
+                            label = "T"
+                        except StopIteration:
+                            self.iters.pop(n.id, None)
+                            label = "F"
                     else:
-                        raise Unsupported("augmented operator")
-                elif isinstance(st, ast.Expr):
-                    if not (isinstance(st.value, ast.Constant)):
-                        self.ev(st.value)
-                elif isinstance(st, ast.Return):
-                    self.returned = self.ev(st.value) if st.value is not None else None
-                    return self
-                elif isinstance(st, ast.Raise):
-                    self.raised = norm(st)[:60]
-                    return self
-                elif isinstance(st, (ast.Pass, ast.Break, ast.Continue)):
-                    pass
-                elif isinstance(st, ast.FunctionDef):
-                    self.env[st.name] = LocalFunction(st, self.env)
-                elif isinstance(st, ast.Assert):
-                    if not self.ev(st.test):
-                        self.raised = "AssertionError"
+                        raise Unsupported("loop form not interpreted")
+                elif n.kind == "stmt" and st is not None:
+                    if isinstance(st, ast.Assign):
+                        v = self.ev(st.value)
+                        for t in st.targets:
+                            self.assign(t, v)
+                    elif isinstance(st, ast.AnnAssign):
+                        if st.value is not None:
+                            self.assign(st.target, self.ev(st.value))
+                    elif isinstance(st, ast.AugAssign):
+                        cur = self.ev(ast.Name(id=st.target.id, ctx=ast.Load())) if isinstance(st.target, ast.Name) else None
+                        if cur is None and not isinstance(st.target, ast.Name):
+                            raise Unsupported("augmented store")
+                        d = self.ev(st.value)
+                        if isinstance(st.op, ast.Add):
+                            self.env[st.target.id] = cur + d
+                        elif isinstance(st.op, ast.Sub):
+                            self.env[st.target.id] = cur - d
+                        else:
+                            raise Unsupported("augmented operator")
+                    elif isinstance(st, ast.Expr):
+                        if not (isinstance(st.value, ast.Constant)):
+                            self.ev(st.value)
+                    elif isinstance(st, ast.Return):
+                        self.returned = self.ev(st.value) if st.value is not None else None
                         return self
-                else:
-                    raise Unsupported(f"statement {type(st).__name__}")
+                    elif isinstance(st, ast.Raise):
+                        self.raised = norm(st)[:60]
+                        return self
+                    elif isinstance(st, (ast.Pass, ast.Break, ast.Continue)):
+                        pass
+                    elif isinstance(st, ast.FunctionDef):
+                        self.env[st.name] = LocalFunction(st, self.env)
+                    elif isinstance(st, ast.Assert):
+                        if not self.ev(st.test):
+                            self.raised = "AssertionError"
+                            return self
+                    else:
+                        raise Unsupported(f"statement {type(st).__name__}")
+                elif n.kind == "with":
+                    raise Unsupported("with statement")
+            except PyExc as ex:
+                # the first enclosing handler that catches it
+                target = None
+                for s, lab in n.succ:
+                    if lab != "exc" or s.kind != "handler":
+                        continue
+                    ht = s.stmt.type  # type: ignore[union-attr]
+                    names = [norm(x) for x in ht.elts] if isinstance(ht, ast.Tuple) else ([norm(ht)] if ht is not None else [None])
+                    if any(nm is None or nm in _EXC_PARENTS.get(ex.name, (ex.name,)) for nm in names):
+                        target = s
+                        break
+                if target is None:
+                    if any(lab == "exc" and s.kind != "handler" for s, lab in n.succ):
+                        raise Unsupported("exception through a finally block")
+                    self.raised = ex.name
+                    return self
+                hname = target.stmt.name  # type: ignore[union-attr]
+                if hname:
+                    self.env[hname] = Opaque()
+                prev = n
+                n = target
+                continue
             succ = [(s, lab) for s, lab in n.succ if lab != "exc"]
             if label is not None and any(lab in ("T", "F") for _, lab in succ):
                 nxt = [s for s, lab in succ if lab == label]
